@@ -919,6 +919,106 @@ def emit_bodies(out, names, outdir, raw=None):
     return changed
 
 
+def site_features(repo):
+    """src/features.rs: every `#[cfg(COND)] macro_rules! NAME { ($($tt:tt)*) => { BODY }; }` as (NAME, COND, passes)"""
+    from rustlex import lex, match_close
+    toks = lex(read(repo, 'src/features.rs', 'features'))
+    gates = []
+    i = 0
+    pending = None
+
+    def cfg(lo, hi):
+        # tokens of a cfg predicate -> nested tuple
+        k, t = toks[lo]
+        if k == 'id' and t == 'feature':
+            assert toks[lo + 1] == ('p', '=') and toks[lo + 2][0] == 'str'
+            return ('feat', toks[lo + 2][1]), lo + 3
+        if k == 'id' and t == 'test':
+            return ('test',), lo + 1
+        if k == 'id' and t in ('not', 'any', 'all'):
+            assert toks[lo + 1] == ('p', '(')
+            end = match_close(toks, lo + 1)
+            items = []
+            j = lo + 2
+            while j < end:
+                e, j = cfg(j, end)
+                items.append(e)
+                if j < end and toks[j] == ('p', ','):
+                    j += 1
+            return (t, items), end + 1
+        raise SiteError('features', 'cfg predicate not understood at token %d: %r' % (lo, t))
+
+    while i < len(toks):
+        if toks[i] == ('p', '#') and toks[i + 1] == ('p', '['):
+            j = match_close(toks, i + 1)
+            if toks[i + 2] == ('id', 'cfg'):
+                pending, _ = cfg(i + 4, j - 1)
+            i = j + 1
+            continue
+        if toks[i] == ('id', 'macro_rules') and toks[i + 1] == ('p', '!'):
+            name = toks[i + 2][1]
+            b = i + 3
+            bend = match_close(toks, b)
+            # single arm  ( $($tt:tt)* ) => { body } ;
+            m0 = b + 1
+            mend = match_close(toks, m0)
+            if ' '.join(t for _k, t in toks[m0 + 1:mend]) != '$ ( $tt : tt ) *' or toks[mend + 1] != ('p', '=>'):
+                raise SiteError('features', 'gate macro %s has an unexpected matcher' % name)
+            body0 = mend + 2
+            bodyend = match_close(toks, body0)
+            body = ' '.join(t for _k, t in toks[body0 + 1:bodyend])
+            if body not in ('', '$ ( $tt ) *'):
+                raise SiteError('features', 'gate macro %s has an unexpected body: %s' % (name, body))
+            if pending is None:
+                raise SiteError('features', 'gate macro %s without a cfg attribute' % name)
+            gates.append((name, pending, body != ''))
+            pending = None
+            i = bend + 1
+            continue
+        i += 1
+    if not gates:
+        raise SiteError('features', 'no gate macros found')
+    return gates
+
+
+def emit_features(gates, outdir):
+    feats = []
+
+    def walk(c):
+        if c[0] == 'feat' and c[1] not in feats:
+            feats.append(c[1])
+        if c[0] in ('not', 'any', 'all'):
+            for x in c[1]:
+                walk(x)
+    for _n, c, _p in gates:
+        walk(c)
+    names = []
+    for n, _c, _p in gates:
+        if n not in names:
+            names.append(n)
+
+    def lean(c):
+        if c[0] == 'feat':
+            return '(.feat %d)' % feats.index(c[1])
+        if c[0] == 'test':
+            return '.test'
+        if c[0] == 'not':
+            return '(.not %s)' % lean(c[1][0])
+        return '(.%s [%s])' % (c[0], ', '.join(lean(x) for x in c[1]))
+    lines = ['import Uom.Model.Features', '/-! GENERATED by translate/translate.py (site `features`) — do not edit -/',
+             'namespace Uom.Gen.Features', 'open Uom.Features', '']
+    for i, f in enumerate(feats):
+        lines.append('def feat_%s : Nat := %d' % (re.sub(r'[^A-Za-z0-9]+', '_', f), i))
+    for i, n in enumerate(names):
+        lines.append('def gate_%s : Nat := %d' % (n, i))
+    lines.append('def gates : List Gate := [')
+    lines.append(',\n'.join('  ⟨gate_%s, %s, %s⟩' % (n, lean(c), 'true' if p else 'false') for n, c, p in gates))
+    lines.append(']')
+    lines.append('')
+    lines.append('end Uom.Gen.Features')
+    return write_if_changed(os.path.join(outdir, 'Features.lean'), '\n'.join(lines) + '\n')
+
+
 def emit_rx(raw, outdir):
     """the same function bodies in the control-flow language `Uom.Rx.Rx` (Model/Rx.lean)"""
     import bodies
@@ -986,6 +1086,15 @@ def main():
         return 3
     changed += emit_bodies(bout, bnames, os.path.join(verif, 'lean', 'Uom', 'Gen'), braw)
     changed += emit_rx(braw, os.path.join(verif, 'lean', 'Uom', 'Gen'))
+    try:
+        gates = site_features(repo)
+    except SiteError as ex:
+        print('translator-broken:%s %s' % (ex.site, ex.msg))
+        return 3
+    except Exception as ex:     # noqa
+        print('translator-broken:features %s: %s' % (type(ex).__name__, ex))
+        return 3
+    changed += emit_features(gates, os.path.join(verif, 'lean', 'Uom', 'Gen'))
     write_if_changed(os.path.join(verif, 'build', 'bodies.json'), json.dumps(braw, ensure_ascii=False, indent=0))
     t['bodies'] = len(bout)
     t['usr'] = dict(quantities=len(usr['quantities']), units=sum(len(q['units']) for q in usr['quantities']), added=len(usr['added']))
